@@ -1,10 +1,13 @@
 import Driver.Reader
+import Driver.Sflow
 open Driver
 
 def handle (line : String) : String :=
   match line.trimAscii.toString.splitOn " " with
   | ["reader", buf, ops] => readerLine buf ops
   | ["reader", buf] => readerLine buf ""
+  | ["sflow", f, d] => sflowLine f d
+  | ["dissect", p, h] => dissectLine p h
   | _ => "bad-op"
 
 partial def loop (h : IO.FS.Stream) (out : IO.FS.Stream) : IO Unit := do
